@@ -258,6 +258,8 @@ class Roots:
                     rest = rest[1:]
                 if compatible and len(v[3]) == 1:
                     return self.roots(v[3][0][1], rest)
+                if nm.endswith("option::Option::None") and p2[0][1] == "Some":
+                    return set()      # the payload of a None does not exist
                 if re.search(r"option::Option::(Some|None)$", nm) and p2[0][1] in ("Ok", "Continue"):
                     # a transposed Option<Result<..>>: the Result layer is peeled, the Option stays
                     return self.roots(v, rest)
